@@ -55,6 +55,22 @@ def gen_config(rng, i, tier="quick"):
         14: dict(fe="joint", nser=3, K=2, limit=3, W=3, exactW=True, beta=2.0, scalar_beta=True),
         15: dict(fe="joint", nser=4, K=3, limit=2, W=2, exactW=True, beta=0.5, scalar_beta=True, exact_first=True),
         16: dict(fe="joint", nser=2, K=2, limit=3, W=4, exactW=True, beta=5.0, scalar_beta=True),
+        24: dict(fe="joint", nser=3, K=2, limit=3, W=3, beta=1.0, scalar_beta=True, equal_lens=True, n_regimes=2),
+        25: dict(fe="joint", nser=2, K=3, limit=3, W=2, beta=0.5, scalar_beta=True, equal_lens=True, n_regimes=3),
+        # one gross outlier: it becomes a one-point cluster, is repopulated at the start of a round and won back by
+        # the relabelling, so the run 'converges' in a round that began with a repopulation
+        18: dict(fe="single", K=3, limit=15, m=2, W=1, N=2, beta=0.1, scalar_beta=True, biased=True, eps=0,
+                 n_regimes=2, outlier=True, scale=1.0, lam=0.11),
+        19: dict(fe="single", K=3, limit=15, m=2, W=1, N=2, beta=0.1, scalar_beta=True, biased=False, eps=0,
+                 n_regimes=2, outlier=True, scale=1.0, lam=0.11),
+        20: dict(fe="single", K=3, limit=15, m=3, W=1, N=2, beta=0.1, scalar_beta=True, biased=True, eps=0,
+                 n_regimes=2, outlier=True, scale=1.0, lam=0.11),
+        21: dict(fe="single", K=3, limit=15, m=2, W=1, N=3, beta=0.5, scalar_beta=True, biased=True, eps=0,
+                 n_regimes=2, outlier=True, scale=1.0, lam=0.11),
+        22: dict(fe="single", K=3, limit=15, m=4, W=1, N=2, beta=0.1, scalar_beta=True, biased=True, eps=0,
+                 n_regimes=2, outlier=True, scale=1.0, lam=0.11),
+        23: dict(fe="single", K=3, limit=15, m=2, W=1, N=2, beta=0.02, scalar_beta=True, biased=True, eps=0,
+                 n_regimes=2, outlier=True, scale=1.0, lam=0.11),
     }.get(i, {})
     c = {"id": i}
     c["fe"] = forced.get("fe", rng.choice(["single", "single", "joint"]))
@@ -81,7 +97,14 @@ def gen_config(rng, i, tier="quick"):
     # the mixture model needs at least K stacked rows in total
     while sum(l - W + 1 for l in lens) < max(3 * c["K"], c["N"] * W + 2):
         lens[0] += 10
+    if forced.get("equal_lens"):
+        lens = [lens[0]] * nser                       # all series of the SAME length
     c["lens"] = lens
+    if forced.get("outlier"):
+        c["outlier"] = True
+        c["lens"] = [120]
+        c["lam"] = 0.11
+        c["scale"] = 1.0
     c["P"] = rng.choice([1, 1, 2, 3])
     c["mp"] = rng.random() < 0.4
     c["data_seed"] = rng.randrange(1 << 30)
@@ -102,6 +125,11 @@ def build_inputs(c):
     rng = np.random.default_rng(c["data_seed"])
     series = [make_series(rng, T, c["N"], c["n_regimes"], c["scale"], offset=c.get("offset", 0.0))
               for T in c["lens"]]
+    if c.get("outlier"):
+        r2 = np.random.default_rng(c["data_seed"] + 3)
+        series[0] = np.concatenate([r2.normal(0, 1, (len(series[0]) // 2, c["N"])),
+                                    r2.normal(6, 1, (len(series[0]) - len(series[0]) // 2, c["N"]))])
+        series[0][len(series[0]) // 4] = 40.0 * np.array([(-1.0) ** j for j in range(c["N"])])
     if c.get("degenerate") == "duplicated":
         series = [np.repeat(s[: max(-(-len(s) // 3), c["W"] + 2)], 3, axis=0)[: len(s)] for s in series]   # same length
     elif c.get("degenerate") == "constant_sensor":
